@@ -88,6 +88,8 @@ class Reg(Logic):
             self.reset_value = 0
             
         self.value = self.reset_value
+        # the output shows the power-up value from the start (as the generated Verilog does)
+        q.put(self.reset_value)
         
     def clock(self):
         setValue = True
